@@ -51,7 +51,7 @@ Consume ==
   /\ l <= Len(Tr)
   /\ LET e == Tr[l]
      IN /\ e.k \notin {"reset", "end", "final"}
-        /\ Step(e.t, LAMBDA site : e.mo)
+        /\ Step(e.t, LAMBDA site : IF e.k = "cas" /\ ~e.ok THEN e.mof ELSE e.mo)
         /\ Matches(ev', e)
         /\ moSeen' = IF ev'.site # "" THEN moSeen \cup {<<ev'.site, ev'.mo>>} ELSE moSeen
   /\ l' = l + 1
